@@ -469,6 +469,10 @@ def oracle_buffer(m, spec, res, T):
             viols.append(C.viol('C13/stream-replaced/%s/%s' % (site, mode),
                                 '%s(%s) saw replaced %s' % (site, ev[2], '+'.join(which))))
             break
+    if any(ev[1] == 'fault' and ev[2] == 'nested_not_restored' for ev in res.trace):
+        viols.append(C.viol('C13/streams-not-restored-after-run/nested/%s' % mode,
+                            'after a nested in-process run (started by a test) sys.stdout/'
+                            'sys.stderr were not the objects that run had found'))
     if not all(res.streams_restored):
         how = 'raised' if res.raised else 'returned'
         viols.append(C.viol('C13/streams-not-restored-after-run/%s/%s' % (mode, how),
